@@ -10,6 +10,7 @@ Section Fields.
   Variable p : program.
   Variable e : env.
   Variable A : nat -> ns -> ns -> Prop.
+  Variable En : nat -> Prop.          (* the lines the transition at hand may start (all of them, for a whole tick) *)
 
   Hypothesis H_refl : forall m x, A m x x.
   Hypothesis H_trans : forall m x y z, A m x y -> A m y z -> A m x z.
@@ -23,7 +24,7 @@ Section Fields.
     (forced x = true \/ (memn m (e_cond_err e) = false /\ memn m (e_cond_true e) = true)) ->
     cancelled x = false ->                                     (* a cancelled node is never activated *)
     A m x (set_cond x true (interrupt_registered x) (run_count x)).
-  Hypothesis H_enter : forall m x,
+  Hypothesis H_enter : forall m x, En m ->
     (started x = true \/ (negb (completed x) && n_thr (nd p m) && negb (forced x) && memn m (e_thr_wait e)) = false) ->
     A m x (set_started x true).
   Hypothesis H_blank_idle : forall m x, n_kind (nd p m) = KBlank true -> A m x (set_started x false).
@@ -83,8 +84,8 @@ Section Fields.
   Lemma ok_add_sched s : okS s (add_sched s). Proof. apply ok_same. reflexivity. Qed.
   Lemma ok_set_error s n : okS s (set_error s n). Proof. apply ok_same. reflexivity. Qed.
 
-  Lemma ok_enter s n : (started (st s n) = true \/ awaiting p e s n = false) -> okS s (set_ns s n (set_started (st s n) true)).
-  Proof. intros H. apply ok_set_ns. apply H_enter. exact H. Qed.
+  Lemma ok_enter s n : En n -> (started (st s n) = true \/ awaiting p e s n = false) -> okS s (set_ns s n (set_started (st s n) true)).
+  Proof. intros E H. apply ok_set_ns. apply H_enter; assumption. Qed.
 
   Lemma ok_try_activate s n s' : try_activate e s n = Some s' -> okS s s'.
   Proof.
@@ -107,15 +108,16 @@ Section Fields.
                           | (apply ok_set_ns; first [apply H_kids | apply H_block | apply H_wait | apply H_completed | apply H_failed
                                                     | apply H_cond_keep]) ].
 
-  Lemma step_ok b f k s : okS s (out_state (step p e b f k s)).
+  (* only the transitions of visit (FVisit n, FThr n) start a line, and only line n *)
+  Lemma step_okG b f k s : (forall n, f = FVisit n \/ f = FThr n -> En n) -> okS s (out_state (step p e b f k s)).
   Proof.
-    destruct f; cbn [step].
+    intros HE. destruct f; cbn [step].
     - (* FVisit *) destruct (completed (st s n)) eqn:Ec; [apply ok_refl|]. destruct (negb (started (st s n))) eqn:Es.
       + unfold thr_loop. destruct (awaiting p e s n) eqn:Ea; [destruct (ended_here p s n k); apply ok_refl|].
-        unfold enter. cbn [out_state]. apply ok_enter. now right.
-      + unfold enter. cbn [out_state]. apply ok_enter. left. now apply negb_false_iff in Es.
+        unfold enter. cbn [out_state]. apply ok_enter; [apply HE; now left|]. now right.
+      + unfold enter. cbn [out_state]. apply ok_enter; [apply HE; now left|]. left. now apply negb_false_iff in Es.
     - (* FThr *) unfold thr_loop. destruct (awaiting p e s n) eqn:Ea; [destruct (ended_here p s n k); apply ok_refl|].
-      unfold enter. cbn [out_state]. apply ok_enter. now right.
+      unfold enter. cbn [out_state]. apply ok_enter; [apply HE; now right|]. now right.
     - (* dispatch *) unfold dispatch. destruct (n_kind (nd p n)) eqn:K.
       + destruct (completed (st s n)); apply ok_refl.
       + destruct trailing; cbn [out_state]; apply ok_set_ns; [now apply H_blank_idle|now apply H_blank_start].
@@ -199,6 +201,9 @@ Section Fields.
   Qed.
 
   (* one tick *)
+  Hypothesis En_all : forall n, En n.
+  Lemma step_ok b f k s : okS s (out_state (step p e b f k s)).
+  Proof. apply step_okG. intros n _. apply En_all. Qed.
   Theorem tick_ok rounds fuel main s main' s' raised :
     tick p rounds fuel e main s = Some (main', s', raised) -> okS s s'.
   Proof.
